@@ -192,6 +192,24 @@ CHECKS = {
           "file and partial writev are not decided; observation O1 (close()'s sleeping push vs. the non-waking consumer) is printed as a NOTE.",
   "note": "Trusted: clang 14 CFG; writev/FileObject opaque; PageAllocator opaque; the appender queue (C01/C02).",
   "technique": "static analysis: resource-flow, must-pass-through, exactly-once linking and ordering rules over CFG facts"},
+ "C11": {
+  "text": "Decides the structural clauses of the serialization property over every SerializeTraits specialisation, helper and "
+          "macro-generated aggregate that an instantiation driver reaches (all scalars, enum, string, vector/list/T[N]/set/map, "
+          "unique_ptr/shared_ptr, aggregates with and without base, cached totals, field numbers up to two-byte tags, ReusableVector), "
+          "in the NDEBUG and debug configurations: the writer's output operations, the size function's terms and the reader's input "
+          "operations agree kind by kind (value-domain aware for varints), the declared WIRE_TYPE is the one the writes imply, field "
+          "framing is tag, length iff length-delimited, payload in writer, reader and both sizing passes, an empty field is neither "
+          "written nor sized, macro-generated writer/sizer/cached-sizer/reader agree member by member on field number, wire type, tag "
+          "size and cache slot and unknown field numbers go to consume_unknown_field, which skips exactly by wire type and rejects the "
+          "rest; every input read decides a failing return; PushLimit/PopLimit pair on all paths with 0 on a failed length read; memory "
+          "reserved from the input is bounded by the bytes present; container loops end on GetDirectBufferPointer (BytesUntilLimit is -1 "
+          "without a limit: finding F6, replayed, fixed upstream-style and now guarded by R5/R7); smart pointers create the pointee only "
+          "on non-empty input. These are universally quantified over types and presentations the tests sample with a few literals. "
+          "Round-trip value equality, byte-exact protobuf interoperability and the behaviour on each malformed input are not decided.",
+  "note": "Trusted: clang 14 CFG and template instantiation; protobuf's CodedInputStream/CodedOutputStream contracts (ReadVarint32 consumes a "
+          "whole varint; BytesUntilLimit() == -1 without limit); the driver's instantiation set stands for 'all supported types' "
+          "(protobuf MessageLite delegation is a one-line forward and not instantiated).",
+  "technique": "static analysis: sibling-agreement (writer/sizer/reader), constant-algebra over evaluated tags, error-discipline edge-guards and push/pop pairing over CFG facts of instantiated templates"},
  "C05": {
   "text": "Decides the single-winner shape of the anyflow run-time: every 'now runnable / now finished' decision is an equality test on the "
           "result of the RMW that changed the counter, evaluated flow-sensitively (GraphVertex::ready = acq_rel fetch_sub(1) == 1; "
